@@ -37,6 +37,55 @@ main(int argc, char **argv)
 	q.lmq_len   = vp_u64("vp_in_len", 0);
 	q.lmq_get   = vp_u64("vp_in_get", 0);
 	q.lmq_put   = vp_u64("vp_in_put", 0);
+	const char *fn0 = argc > 2 ? argv[2] : "nni_lmq_resize";
+	if (strcmp(fn0, "nni_lmq_init") == 0) {
+		/* no pre-state: the structure is whatever was there before (0xA5 here) */
+		size_t cap = vp_u64("vp_arg_cap", 0);
+		if (!vp_has("vp_arg_cap") || cap > (1u << 20)) {
+			printf("REPLAY-RESULT: skipped (%s)\n", vp_has("vp_arg_cap") ? "capacity too large to build natively" : "trace has no entry snapshot");
+			return 3;
+		}
+		memset(&q, 0xA5, sizeof(q));
+		nni_lmq_init(&q, cap);
+		printf("nni_lmq_init(cap=%zu); now cap=%zu alloc=%zu mask=%zu len=%zu get=%zu put=%zu\n", cap, q.lmq_cap, q.lmq_alloc, q.lmq_mask,
+		    q.lmq_len, q.lmq_get, q.lmq_put);
+		VP_EXPECT(LMQ_WF_SCALAR(&q));
+		VP_EXPECT(q.lmq_len == 0);
+		VP_EXPECT(q.lmq_cap == cap || (cap > 2 && q.lmq_cap == 2 && q.lmq_alloc == 0));
+		VP_EXPECT(q.lmq_alloc == 0 ? q.lmq_msgs == q.lmq_buf : (q.lmq_msgs != NULL && q.lmq_msgs != q.lmq_buf));
+		if (LMQ_WF_SCALAR(&q)) {
+			/* what a user sees next: exactly cap messages go in and come out in order */
+			size_t   k = 0;
+			nng_msg *m;
+			while (nni_lmq_put(&q, MSG(k)) == 0 && k < (1u << 21))
+				k++;
+			VP_EXPECT(k == q.lmq_cap);
+			for (size_t i = 0; i < k; i++)
+				VP_EXPECT(nni_lmq_get(&q, &m) == 0 && m == MSG(i));
+			nni_lmq_fini(&q);
+		}
+		VP_DONE();
+	}
+	if (strcmp(fn0, "nni_lmq_len") == 0 || strcmp(fn0, "nni_lmq_cap") == 0 || strcmp(fn0, "nni_lmq_full") == 0 ||
+	    strcmp(fn0, "nni_lmq_empty") == 0) {
+		/* accessors: any structure contents (no representation invariant required) */
+		if (!vp_has("vp_in_len")) {
+			printf("REPLAY-RESULT: skipped (trace has no entry snapshot)\n");
+			return 3;
+		}
+		q.lmq_msgs = q.lmq_buf;
+		if (strcmp(fn0, "nni_lmq_len") == 0)
+			VP_EXPECT(nni_lmq_len(&q) == q.lmq_len);
+		else if (strcmp(fn0, "nni_lmq_cap") == 0)
+			VP_EXPECT(nni_lmq_cap(&q) == q.lmq_cap);
+		else if (strcmp(fn0, "nni_lmq_full") == 0)
+			VP_EXPECT(nni_lmq_full(&q) == (q.lmq_len >= q.lmq_cap));
+		else
+			VP_EXPECT(nni_lmq_empty(&q) == (q.lmq_len == 0));
+		printf("%s on {cap=%zu len=%zu}\n", fn0, q.lmq_cap, q.lmq_len);
+		VP_EXPECT(q.lmq_cap == vp_u64("vp_in_cap", 2) && q.lmq_len == vp_u64("vp_in_len", 0));
+		VP_DONE();
+	}
 	if (q.lmq_alloc > (1u << 20)) {
 		printf("REPLAY-RESULT: skipped (alloc %zu too large to build natively)\n", q.lmq_alloc);
 		return 3;
